@@ -122,6 +122,8 @@ pub struct Project {
     pub conv: Conv,
     /// jobs whose last attempt failed or was cut short by an abort while running
     pub tainted: BTreeSet<String>,
+    /// what the driver saw each job consume / produce at its last success (ground truth)
+    pub shadow: Shadow,
 }
 
 fn rand_kind(rng: &mut Rng) -> JobKind {
@@ -143,6 +145,7 @@ impl Project {
             stamp: 0,
             conv,
             tainted: BTreeSet::new(),
+            shadow: Shadow::default(),
         };
         p.g.edge_order_seed = edge_order_seed;
         p
@@ -852,6 +855,44 @@ pub fn judge_offline(g: &Graph, h_in: &History, disk_after: &BTreeMap<String, St
     viols
 }
 
+/// C03 / C04 against the ground-truth reference (independent of the engine's record keeping)
+pub fn judge_truth(g: &Graph, rep: &Report, exp: &Expect) -> Vec<Violation> {
+    let mut viols = vec![];
+    if rep.history_out.is_none() || exp.ambiguous {
+        return viols;
+    }
+    let started = rep.started_set();
+    let kc = |id: &str| kind_char(g.kind(id));
+    let no_fail = rep.failed.is_empty() && !rep.aborted && rep.errors.is_empty();
+    if no_fail {
+        if started != exp.executed {
+            let extra: Vec<&String> = started.difference(&exp.executed).collect();
+            let missing: Vec<&String> = exp.executed.difference(&started).collect();
+            let sig = format!(
+                "truth extra={:?} missing={:?}",
+                extra.iter().map(|j| format!("{}{}", kc(j), if exp.uptodate[*j] { "u" } else { "s" })).collect::<BTreeSet<_>>(),
+                missing.iter().map(|j| format!("{}{}", kc(j), if exp.uptodate[*j] { "u" } else { "s" })).collect::<BTreeSet<_>>()
+            );
+            viols.push(mk("C04", "executed-set-differs-from-ground-truth", sig, format!("executed {:?}, but judging by what the jobs were last built from exactly {:?} is necessary (extra {:?}, missing {:?})", started, exp.executed, extra, missing)));
+        }
+    } else {
+        for j in &started {
+            if !exp.executed.contains(j) {
+                viols.push(mk("C04", "executed-outside-necessary-set-ground-truth", format!("{}", kc(j)), format!("with faults: executed {} which is not necessary judging by what the jobs were last built from ({:?})", j, exp.executed)));
+            }
+        }
+    }
+    for n in &g.nodes {
+        if started.contains(&n.id) || rep.disposition(&n.id) != "skip" || g.useless_ephemeral(&n.id) {
+            continue;
+        }
+        if !exp.uptodate[&n.id] {
+            viols.push(mk("C03", "skipped-but-stale-ground-truth", format!("{}", kc(&n.id)), format!("{} skipped ({}) although what it was last built from has changed (or it never succeeded)", n.id, rep.state_str(&n.id))));
+        }
+    }
+    viols
+}
+
 fn twin_eval(g: &Graph, h: &History, disk: &BTreeMap<String, String>, rng: &mut Rng, stamp: &mut u64, mode: CmpMode, shuffle: bool, next_job: bool) -> (Report, BTreeMap<String, String>) {
     let mut g2 = g.clone();
     if shuffle {
@@ -923,7 +964,47 @@ pub fn eval_step(p: &mut Project, cfg: &ChainCfg, seed: u64, step: usize, edits:
     {
         plan.misuse = cfg.misuse.clone();
         let disk_before = p.world.borrow().disk.clone();
+        if p.history.is_empty() {
+            // history lost (or first evaluation): there is nothing an earlier success could vouch with
+            p.shadow = Shadow::default();
+        }
+        {
+            // C18: the records of a job one of whose outputs is now produced by a present job of another
+            // name are dropped for good - the ground truth must not vouch with them either
+            let producer: HashMap<&str, &str> = p.g.nodes.iter().flat_map(|n| n.outs.iter().map(move |o| (o.as_str(), n.id.as_str()))).collect();
+            let superseded: Vec<String> = p.shadow.rec.keys().filter(|id| p.g.node(id).is_none() && id.split(":::").any(|part| producer.get(part).map(|x| x != id).unwrap_or(false))).cloned().collect();
+            for id in superseded {
+                p.shadow.rec.remove(&id);
+                p.shadow.dirty.remove(&id);
+            }
+            // a per-dependency record "<old upstream id>!!!<consumer>" of a renamed multi-output upstream is
+            // only kept for a *present* consumer (C18 lets it go otherwise): a job that is absent while one
+            // of the names it consumed is produced under another id will legitimately be rebuilt on return
+            let absent_renamed: Vec<String> = p
+                .shadow
+                .rec
+                .iter()
+                .filter(|(id, r)| p.g.node(id).is_none() && r.consumed_from.iter().any(|(name, up)| producer.get(name.as_str()).map(|cur| cur != up).unwrap_or(false)))
+                .map(|(id, _)| id.clone())
+                .collect();
+            for id in absent_renamed {
+                p.shadow.dirty.insert(id);
+            }
+        }
+        for n in &p.g.nodes {
+            if let Some(r) = p.shadow.rec.get(&n.id) {
+                if r.input_names != p.g.input_names(&n.id) {
+                    p.shadow.dirty.insert(n.id.clone());
+                }
+            }
+            // an Ephemeral nobody can need "may be left not up to date" (C03): the ground truth abstains
+            // for it until it has succeeded again
+            if p.g.useless_ephemeral(&n.id) {
+                p.shadow.dirty.insert(n.id.clone());
+            }
+        }
         let exp = expected(&p.g, &p.history, &disk_before, mode, &p.tainted);
+        let exp_truth = expected_with(&p.g, &p.history, &disk_before, mode, &p.tainted, Some(&p.shadow));
         if cfg.inject {
             // C16: change the payload of validated ephemerals that will be re-executed for a consumer
             plan.fail.clear();
@@ -1114,6 +1195,10 @@ pub fn eval_step(p: &mut Project, cfg: &ChainCfg, seed: u64, step: usize, edits:
         for v in off {
             all_viols.push((v, ""));
         }
+        // the same two questions against the ground truth (what the driver saw the jobs consume)
+        for v in judge_truth(&p.g, &rep, &exp_truth) {
+            all_viols.push((v, "ground-truth"));
+        }
 
         // ------------------------------------------------ non-triviality bookkeeping
         let no_fail = rep.failed.is_empty() && !rep.aborted && rep.errors.is_empty();
@@ -1298,9 +1383,30 @@ pub fn eval_step(p: &mut Project, cfg: &ChainCfg, seed: u64, step: usize, edits:
         for j in rep.failed.iter().chain(rep.running_at_abort.iter()) {
             p.tainted.insert(j.clone());
         }
-        for j in rep.succeeded.keys() {
+        for (j, out) in rep.succeeded.iter() {
             if !rep.failed.contains(j) {
                 p.tainted.remove(j);
+                p.shadow.dirty.remove(j);
+                p.shadow.rec.insert(
+                    j.clone(),
+                    ShadowRec {
+                        input_names: p.g.input_names(j),
+                        consumed: rep.consumed_seen.get(j).cloned().unwrap_or_default(),
+                        outs: parse_rec(out),
+                        consumed_from: p.g.ups(j).iter().flat_map(|e| e.names.iter().map(move |n| (n.clone(), e.up.clone()))).collect(),
+                    },
+                );
+            }
+        }
+        if rep.history_out.is_some() {
+            // a validly skipped job re-records what it consumed under the current upstream ids
+            for n in &p.g.nodes {
+                if rep.disposition(&n.id) == "skip" && !started.contains(&n.id) {
+                    let from: BTreeMap<String, String> = p.g.ups(&n.id).iter().flat_map(|e| e.names.iter().map(move |x| (x.clone(), e.up.clone()))).collect();
+                    if let Some(r) = p.shadow.rec.get_mut(&n.id) {
+                        r.consumed_from = from;
+                    }
+                }
             }
         }
         match rep.history_out {
